@@ -240,10 +240,14 @@ enum DeviceStatusCode
 video_filter_start(struct video_filter_s* self)
 {
     // Register this reader before the source can write (see video_sink_start).
-    {
+    // Anything still in the queue was left behind by an acquisition that
+    // failed or was aborted: discard it, it must not leak into this one.
+    for (;;) {
         struct slice slice = channel_read_map(&self->in, &self->reader);
-        (void)slice;
-        channel_read_unmap(&self->in, &self->reader, 0);
+        const size_t nbytes = slice.end - slice.beg;
+        channel_read_unmap(&self->in, &self->reader, nbytes);
+        if (!nbytes)
+            break;
     }
     self->is_stopping = 0;
     self->is_running = 1;
